@@ -204,7 +204,7 @@ def run_shard(args):
         t0 = time.time()
         import c17
         try:
-            c17.main(path, int(hargs.get('seed', 0)), int(hargs.get('first', 0)), int(hargs.get('n', 1)))
+            c17.main(path, int(hargs.get('seed', 0)), int(hargs.get('first', 0)), int(hargs.get('n', 1)), mode=hargs.get('mode', 'config'))
         except Exception as e:
             raise Infra(f'{scen} failed: {e}')
         run_driver(path, path + '.model', flags)
